@@ -555,6 +555,18 @@ def field_form(ctx, fa):
     return [list(map(float, row)) for row in fa]
 
 
+def c08_forms(ctx, fa):
+    """The data of a C08 input in the forms vario_estimate accepts: NaN markers, and (if values are
+    missing) every representation of Render in the spec -- masked stacks / lists of masked arrays with
+    different masks per field and finite raw data below the mask, mask=, no_data."""
+    forms = [("nan", field_form(ctx, fa), {})]
+    if np.isnan(fa).any():
+        for kind in REPR_KINDS:
+            f_, kw = render(fa, kind, as_list=ctx.rng.random() < 0.5)
+            forms.append((kind, f_, kw))
+    return forms
+
+
 def pos_form(ctx, pa):
     """A (dim, n) float array in one of the accepted input forms."""
     r = ctx.rng.random()
@@ -582,17 +594,19 @@ def replay_iso_c08(ctx, gs, K, st):
             _fail(ctx, "iso:kernel:%s:%s" % (est_name(est), bad[0]),
                   "unstructured(%s, euclid) dim=%d differs from the definition in bin %d (%s)" % (est_name(est), dim, bad[2], bad[0]),
                   "iso", st, "unstructured(f, edges, pos, %r, 'e')" % est, _obs(v, c))
-        r = safe_api(ctx, st, "iso", "vario_estimate(%s)" % est_name(est),
-                     lambda: call_api(gs, pos_form(ctx, pa), field_form(ctx, fa), ed, est))
-        if r is None:
-            continue
-        _cen, v, c = r
-        ctx.calls += 1
-        bad = compare(exp, v, c, est)
-        if bad:
-            _fail(ctx, "iso:api:%s:%s" % (est_name(est), bad[0]),
-                  "vario_estimate(%s) dim=%d differs from the definition in bin %d (%s)" % (est_name(est), dim, bad[2], bad[0]),
-                  "iso", st, "vario_estimate(pos, field, edges, estimator=%r, return_counts=True)" % est_name(est), _obs(v, c))
+        for form, fld, kw in c08_forms(ctx, fa):
+            r = safe_api(ctx, st, "iso", "vario_estimate(%s, missing as %s)" % (est_name(est), form),
+                         lambda: call_api(gs, pos_form(ctx, pa), fld, ed, est, **kw))
+            if r is None:
+                continue
+            _cen, v, c = r
+            ctx.calls += 1
+            bad = compare(exp, v, c, est)
+            if bad:
+                _fail(ctx, "iso:api:%s:%s" % (est_name(est), bad[0]),
+                      "vario_estimate(%s) dim=%d, missing values given as %s, differs from the definition in bin %d (%s)"
+                      % (est_name(est), dim, form, bad[2], bad[0]), "iso", st,
+                      "vario_estimate(pos, field=%s, edges, estimator=%r, return_counts=True, %s)" % (_show(fld), est_name(est), _showkw(kw)), _obs(v, c))
     return any(a[0][0] > 0 or len(a) > 1 for a in exp[0])
 
 
@@ -644,14 +658,17 @@ def replay_dir_c08(ctx, gs, K, st):
             ctx.calls += 1
             _dir_check(ctx, st, "directional(separate_dirs=True)", "directional(f, edges, pos, unit dirs, tol, bw, True, %r)" % est,
                        full, early, v, c, est, "kernel-separated", True)
-        r = safe_api(ctx, st, "dir", "vario_estimate(direction=..., %s)" % est_name(est),
-                     lambda: call_api(gs, pos_form(ctx, pa), field_form(ctx, fa), ed, est, **dir_kwargs(inp)))
-        if r is None:
-            continue
-        _cen, v, c = r
-        ctx.calls += 1
-        _dir_check(ctx, st, "vario_estimate(direction=...)", "vario_estimate(pos, field, edges, direction, angles_tol, bandwidth, %r)" % est_name(est),
-                   full, early, v, c, est, "api", True)
+        for form, fld, kw in c08_forms(ctx, fa):
+            kw = dict(kw, **dir_kwargs(inp))
+            r = safe_api(ctx, st, "dir", "vario_estimate(direction=..., %s, missing as %s)" % (est_name(est), form),
+                         lambda: call_api(gs, pos_form(ctx, pa), fld, ed, est, **kw))
+            if r is None:
+                continue
+            _cen, v, c = r
+            ctx.calls += 1
+            _dir_check(ctx, st, "vario_estimate(direction=..., missing values as %s)" % form,
+                       "vario_estimate(pos, field=%s, edges, %r, %s)" % (_show(fld), est_name(est), _showkw(kw)),
+                       full, early, v, c, est, "api", True)
     if any(len(a) > 1 for row in full for a in row):
         ctx.boundary_inputs += 1
     return any(a[0][0] > 0 or len(a) > 1 for row in full for a in row)
@@ -698,13 +715,15 @@ def replay_gc_c08(ctx, gs, K, st):
         v, c = K.unstructured(fa, ed, pa, est, "h", None)
         ctx.calls += 1
         _gc_check(ctx, st, "unstructured(haversine)", "unstructured(f, edges_rad, latlon, %r, 'h')" % est, _as2d(v), _as2d(c), est, "kernel")
-        r = safe_api(ctx, st, "gc", "vario_estimate(latlon=True, %s)" % est_name(est),
-                     lambda: call_api(gs, pos_form(ctx, pa), field_form(ctx, fa), ed.copy(), est, latlon=True))
-        if r is None:
-            continue
-        _cen, v, c = r
-        ctx.calls += 1
-        _gc_check(ctx, st, "vario_estimate(latlon=True)", "vario_estimate(latlon, field, edges_rad, latlon=True, %r)" % est_name(est), v, c, est, "api")
+        for form, fld, kw in c08_forms(ctx, fa):
+            r = safe_api(ctx, st, "gc", "vario_estimate(latlon=True, %s, missing as %s)" % (est_name(est), form),
+                         lambda: call_api(gs, pos_form(ctx, pa), fld, ed.copy(), est, latlon=True, **kw))
+            if r is None:
+                continue
+            _cen, v, c = r
+            ctx.calls += 1
+            _gc_check(ctx, st, "vario_estimate(latlon=True, missing values as %s)" % form,
+                      "vario_estimate(latlon, field=%s, edges_rad, latlon=True, %r, %s)" % (_show(fld), est_name(est), _showkw(kw)), v, c, est, "api")
     exp = norm_bins(out["alts"])
     if any(len(a) > 1 for a in exp):
         ctx.boundary_inputs += 1
@@ -741,7 +760,7 @@ def replay_axis_c08(ctx, gs, K, st):
                 _fail(ctx, "axis:kernel-structured:%s:%s" % (est_name(est), bad[0]),
                       "structured(%s) differs from the definition at lag %d" % (est_name(est), bad[2]), "axis", st,
                       "structured(f2d, %r)" % est, _obs(v, None))
-        v = K.ma_structured(np.where(m2, 0.0, f2), m2.view(np.uint8), est, None)
+        v = K.ma_structured(np.where(m2, GARB, f2), m2.view(np.uint8), est, None)
         ctx.calls += 1
         bad = compare(exp, _as2d(v), None, est)
         if bad:
@@ -1052,6 +1071,10 @@ def _half_degrees(E):
     """Edges in degrees; integer degrees are moved off the boundary only where the spec would
     treat them as boundaries anyway (equality of a float product is not assumed)."""
     return np.array(E, dtype=float) / 2.0
+
+
+def _showkw(kw):
+    return ", ".join("%s=%s" % (a, _show(b)) for a, b in kw.items())
 
 
 def _show(x):
